@@ -57,7 +57,7 @@ fn progress_filtertime_havoc(f: &mut InnerFilter, time: Time, _wander: f64, _con
     if time < f.filter_time {
         return;
     }
-    f.state = Vector::new_vector([kani::any(), kani::any(), kani::any()]);
+    f.state = Vector::new_vector([any_f64_non_nan(), any_f64_non_nan(), any_f64_non_nan()]);
     f.filter_time = time;
 }
 
@@ -103,7 +103,7 @@ fn within(f: f64, bound: f64) -> bool {
 // @timeout 1800
 // @mem 12
 // @functions KalmanFilter::change_frequency, clamp_adjustment, BaseFilter::freq_offset, BaseFilter::absorb_frequency_steer, InnerFilter::absorb_frequency_steer
-// @bounds arbitrary non-NaN estimator state (offset, frequency, delay: any f64 incl. infinities), current frequency within the bound (one rounding), target any non-NaN f64, bound and max steer any finite value in (0, 10^6], clock that fails nondeterministically and returns a time not before the filter time
+// @bounds arbitrary non-NaN estimator state (offset, frequency, delay: any f64 incl. infinities), current frequency within the bound (one rounding), target any finite f64 (what steer / update / demobilize pass), bound and max steer any finite value in (0, 10^6], clock that fails nondeterministically and returns a time not before the filter time
 // @assume InnerFilter::progress_filtertime replaced by an over-approximation (arbitrary new state, same debug_assert); the covariance algebra is outside the claim
 #[kani::proof]
 #[kani::unwind(5)]
@@ -119,7 +119,8 @@ fn c13_change_frequency() {
     let mut f = mk(config, if has_inner { Some(any_inner(ft)) } else { None }, if kani::any() { Some(cur) } else { None });
     let had_freq = f.cur_frequency.is_some();
     let mut clock = CmdClock::any(ret);
-    let target = any_f64_non_nan();
+    // every caller passes a finite target (steer clamps to +-max_steer, update / demobilize pass 0.0)
+    let target = any_finite();
     f.change_frequency(target, &mut clock);
     if had_freq {
         assert!(clock.n_freq == 1 && clock.n_step == 0, "exactly one frequency command");
